@@ -109,9 +109,20 @@ def rule_bp(ctx, rep):
                 n += 1
                 rep.check(lockset.SIGBLOCKED in must.get(c.id, ()), "C19.bp", "%s.%s.blocked-at-lock@%d" % (name, lk, c.line), "all signals are blocked when %s is taken" % lk,
                           "%s is acquired with signals unblocked: a handler running rcu_read_lock() on this (unregistered) thread would self-deadlock on it" % lk, [c.where()])
+        if name == "urcu_bp_register":
+            # the lazy registration path is what a handler's rcu_read_lock() re-enters on a not-yet-registered thread:
+            # *every* mutex it takes (registry lock, init_lock of the library constructor, ...) must be taken with signals blocked
+            for c in f.calls("pthread_mutex_lock"):
+                lk = lockset.lock_name(c)
+                if lk in ("@rcu_registry_lock", "@rcu_gp_lock"):
+                    continue
+                n += 1
+                rep.check(lockset.SIGBLOCKED in must.get(c.id, ()), "C19.bp", "%s.%s.blocked-at-lock" % (name, lk.lstrip("@")), "all signals are blocked when %s is taken on the registration path" % lk,
+                          "%s is acquired on the lazy-registration path with signals unblocked: a handler whose rcu_read_lock() re-enters urcu_bp_register() on this thread "
+                          "blocks forever on the non-recursive mutex" % lk, [c.where()])
         for c in pat.calls(f, "pthread_sigmask"):
             if ir.const_of(f, c.args[0]) == 2:
-                held = [x for x in may.get(c.id, ()) if x in ("@rcu_registry_lock", "@rcu_gp_lock")]
+                held = [x for x in may.get(c.id, ()) if x in ("@rcu_registry_lock", "@rcu_gp_lock") or (name == "urcu_bp_register" and x != lockset.SIGBLOCKED)]
                 rep.check(not held, "C19.bp", "%s.restore-after-unlock@%d" % (name, c.line), "the signal mask is restored only after the locks are released",
                           "the signal mask is restored while %s may still be held: a pending signal is delivered inside the critical section" % held, [c.where()])
         for r in f.rets():
@@ -119,7 +130,7 @@ def rule_bp(ctx, rep):
                 ok = must[r.id] == exit_ and may.get(r.id) == exit_
                 rep.check(ok, "C19.bp", "%s.exit-state" % name, "returns with lock/mask state %s" % (sorted(exit_) or "released, mask restored"),
                           "returns with lock/mask state must=%s may=%s, expected %s" % (sorted(must[r.id]), sorted(may.get(r.id, ())), sorted(exit_)), [r.where()])
-    pat.require(n >= 6, "bp: only %d lock acquisitions found" % n)
+    pat.require(n >= 7, "bp: only %d lock acquisitions found" % n)
     # register re-checks the TLS pointer after blocking signals
     f = m.fn("urcu_bp_register")
     blk = [c for c in pat.calls(f, "pthread_sigmask") if ir.const_of(f, c.args[0]) == 0]
